@@ -557,11 +557,14 @@ class DatasetProcessor:
         logger.info('Collecting read alignments')
         chr_ids = self.get_chr_list()
         info_file = sample.out_raw_file + "_info"
+        alignment_stat_file = sample.out_raw_file + "_alignment_stat"
         lock_file = sample.out_raw_file + "_lock"
 
         if os.path.exists(lock_file):
             if self.args.resume:
                 logger.info("Collected reads detected, will not process")
+                # later steps report the number of unaligned reads
+                self.alignment_stat_counter = EnumStats(alignment_stat_file)
                 return
             else:
                 os.remove(lock_file)
@@ -607,6 +610,7 @@ class DatasetProcessor:
             bam = pysam.AlignmentFile(bam_file, "rb", require_index=True)
             self.alignment_stat_counter.add(AlignmentType.unaligned, bam.unmapped)
         self.alignment_stat_counter.print_start("Alignments collected, overall alignment statistics:")
+        self.alignment_stat_counter.dump(alignment_stat_file)
 
         info_dumper = open(info_file, "wb")
         write_int(total_assignments, info_dumper)
